@@ -59,6 +59,10 @@ class ParseHarness:
                     return None
             # hashing site ahead (DESIGN 2.7): let the solver enumerate the finite alphabet now
             cells = [env.realize(c) for c in cells]
+        if self.p.get("alphabet"):
+            for c in cells:
+                if not docs.in_alphabet(c, self.p["alphabet"]):
+                    return None
         for i, k in enumerate(self.p.get("classes") or []):
             if not docs.in_class(cells[i], k):
                 return None
